@@ -55,6 +55,7 @@ func boundary() []gspec {
 	})
 	add(func(g *gspec) { g.bal = "a0:1ugnot"; g.tx = "add.p0@h3@sF:0:4,inc.p0@sa0:1:9,inc.p0@h4@sa5:3:1" })
 	add(func(g *gspec) { g.prm = 1; g.bal = "a0:1zed" })
+	add(func(g *gspec) { g.bal = "a0:5ugnot^c,a1:3atom+2zed^d,a0:7ugnot,a2:1ugnot^d,a2:2ugnot^c"; g.tx = "add.p0" }) // vesting accounts
 	add(func(g *gspec) { g.prm = 2; g.bal = "a0:1zed,a1:1atom"; g.tx = "add.p0" })
 	add(func(g *gspec) { g.prm = 3; g.tx = "add.p2,inc.p2" })
 	return out
@@ -110,7 +111,11 @@ func randSpec(r *kit.Rand, allowFindings bool) gspec {
 	var bs []string
 	naddr := 1 + r.Intn(6)
 	for i := 0; i < nb; i++ {
-		bs = append(bs, fmt.Sprintf("a%d:%s", r.Intn(naddr), randCoins(r)))
+		c := randCoins(r)
+		if c != "-" && r.Chance(15) {
+			c += kit.Pick(r, []string{"^c", "^d"})
+		}
+		bs = append(bs, fmt.Sprintf("a%d:%s", r.Intn(naddr), c))
 	}
 	if len(bs) > 0 {
 		g.bal = strings.Join(bs, ",")
@@ -188,6 +193,8 @@ func malformed(r *kit.Rand) []string {
 		"g rep=0 prm=0 ih=0/0 grm=- pc=0 val=1 bal=a0:5ugnot+3atom tx=-",
 		"g rep=0 prm=0 ih=0/0 grm=- pc=0 val=1 bal=a0:0ugnot tx=-",
 		"g rep=0 prm=0 ih=0/0 grm=- pc=0 val=1 bal=a0:5ugnot*0 tx=-",
+		"g rep=0 prm=0 ih=0/0 grm=- pc=0 val=1 bal=a0:-^c tx=-",
+		"g rep=0 prm=0 ih=0/0 grm=- pc=0 val=1 bal=a0:5ugnot^x tx=-",
 		"g rep=0 prm=0 ih=0/0 grm=- pc=0 val=1 bal=- tx=add.p9",
 		"g rep=0 prm=0 ih=0/0 grm=- pc=0 val=1 bal=- tx=add.p0@",
 		"g rep=0 prm=0 ih=0/0 grm=- pc=0 val=1 bal=- tx=add.p0@sa1:1",
